@@ -51,6 +51,9 @@ def obligations(tier):
         CH("constant_cmp_transitive", H, "cmp_trans", t, functions=FC[:1], stubs=[FMT], bounds="three constants, kinds int/bool, ints unbounded"),
         CH("comparison_expression_cmp_laws", H, "expr_cmp_laws", t, functions=FC[1:4], stubs=[FMT], bounds="three atoms: 5 operators, NOT flag, unbounded int constant"),
     ]
+    obls.append(CH("qualifier_order_laws", H, "qualifier_order_laws", t, functions=FO[5:6] + ["stix2.equivalence.pattern.compare.observation.startstop_cmp",
+                   "stix2.equivalence.pattern.compare.observation.within_cmp", "stix2.equivalence.pattern.compare.observation.repeats_cmp"], stubs=[FMT],
+                   bounds="three qualified expressions: qualifier kind REPEATS/WITHIN/START-STOP, unbounded int parameters (ints stand for instants)"))
     nshapes_c = 8
     for p in range(nshapes_c):
         obls.append(CH("comparison_normaliser_sound_s%d" % p, H, "comp_norm_sound", t, functions=FT + FC[1:4], stubs=[FMT, SEM], env={"VERIF_PART": str(p)},
